@@ -14,7 +14,8 @@ is what is observed.  After every dump call (failed or not) the state of `root` 
 
 `snapshot(root)` describes the target path: (0,) absent | (1, bytes) file | (2, [((kind, idx), bytes), ...])
 directory with its entries in byte order of their names; names: part-NNNNN -> (0, N), _SUCCESS -> (1, 0),
-old-K -> (2, K); any other name (or a sub-directory) raises -- it is not something a save may create.
+old-K -> (2, K); any other name (or a sub-directory) -> (3, 0): not something a save may create (the model never
+produces it, the oracle reports it).
 """
 import io
 import os
@@ -62,7 +63,7 @@ def name_code(fname):
     m = _OLD.match(fname)
     if m:
         return (2, int(m.group(1)))
-    raise ValueError(f'unexpected entry {fname!r} in the target directory')
+    return (3, 0)    # not a name a save may create (e.g. a temporary file left behind); judged by the oracle
 
 
 def name_of(code):
@@ -84,7 +85,8 @@ def snapshot(root):
     for fname in sorted(os.listdir(root), key=lambda s: s.encode()):
         p = os.path.join(root, fname)
         if not os.path.isfile(p):
-            raise ValueError(f'unexpected non-file {fname!r} in the target directory')
+            entries.append(((3, 0), b''))
+            continue
         with open(p, 'rb') as f:
             entries.append((name_code(fname), f.read()))
     return (2, entries)
